@@ -329,7 +329,7 @@ pub fn follow_ups(dir: &Path, base: &[Event], doc: usize, text: &'static str, ta
     let origin_ev = base.last().unwrap();
     let classes: Vec<(Vec<Event>, Event)> = vec![
         (vec![], Event::Request { doc, req: Req::Formatting }),
-        (vec![], origin_ev.clone()),
+        (vec![], if matches!(origin_ev, Event::Open { .. }) { Event::Request { doc, req: Req::Hover(0, 0) } } else { origin_ev.clone() }),
         (vec![], Event::Change { doc, text }),
         (vec![], Event::Close { doc }),
         (vec![Event::Open { doc: other, text: valid }], Event::Request { doc: other, req: Req::Formatting }),
@@ -363,7 +363,9 @@ pub fn follow_ups(dir: &Path, base: &[Event], doc: usize, text: &'static str, ta
                 });
                 continue;
             }
-            // the server survived: then the answer must be the right one
+            // the server survived: then the answer must be the right one. (Right after the panic the
+            // dying analysis thread may still count as alive, then the request gets an empty answer
+            // instead of killing the server: same defect, same key.)
             let exp = match &fu {
                 Event::Request { doc: d, req } => {
                     let t = if *d == doc { text } else { valid };
@@ -376,8 +378,8 @@ pub fn follow_ups(dir: &Path, base: &[Event], doc: usize, text: &'static str, ta
             if let Some(exp) = exp {
                 if !same_outcome(&o, &exp) && !(is_repeat && !o.clean()) {
                     bag.add(Violation {
-                        key: format!("wrong-reply-after:{}", origin_key(origin_ev, o0)),
-                        detail: format!("{} answered {} expected {}", fu.kind(), o.to_json(), exp.to_json()),
+                        key: format!("server-dies-after-swallowed-panic:{}", origin_key(origin_ev, o0)),
+                        detail: format!("the server is still up but {} is answered {} instead of {}", fu.kind(), o.to_json(), exp.to_json()),
                         history: h,
                     });
                 }
